@@ -11,13 +11,13 @@ CHECK = {
     "tests": [
         T("filepool", "TestC15FilePoolModel",
           {"checks": 3000, "shards": 2, "timeout": 300, "steps": 50},
-          {"checks": 40000, "shards": 8, "timeout": 1500, "steps": 80}),
+          {"checks": 30000, "shards": 8, "timeout": 1500, "steps": 80}),
         T("filepool", "TestC15FilePoolFaults",
           {"checks": 900, "shards": 2, "timeout": 300},
-          {"checks": 12000, "shards": 6, "timeout": 1500}),
+          {"checks": 10000, "shards": 6, "timeout": 1500}),
         T("filepool", "TestC15BitmapAllocatorModel",
           {"checks": 6000, "shards": 1, "timeout": 300, "steps": 60},
-          {"checks": 100000, "shards": 2, "timeout": 1500, "steps": 120}),
+          {"checks": 80000, "shards": 2, "timeout": 1500, "steps": 120}),
     ],
 }
 META = {
